@@ -1,4 +1,4 @@
-//go:build verif
+//go:build verif && verif_c08wb
 
 package compose
 
@@ -10,6 +10,11 @@ import (
 
 // Re-exports for the C08 correspondence harness (/verif/harness/cmd/c08): the
 // streamReaderPacker wrappers of compose/stream_reader.go driven from outside the package.
+//
+// White-box group of its own (tag verif_c08wb beside verif): only the C08 harness asks for it, so a
+// rename in compose/stream_reader.go that this file does not follow cannot stop the harnesses of the
+// other properties (built with -tags verif) from compiling; the C08 harness has black-box stand-ins
+// for a build without the group.
 
 // VerifC08Copy copies a reader through streamReaderPacker.copy.
 func VerifC08Copy[T any](sr *schema.StreamReader[T], n int) []*schema.StreamReader[T] {
